@@ -924,16 +924,28 @@ fn gen_rtt_history(rng: &mut Rng, out: &mut Out, stats: &mut HashMap<String, u64
     let mut run = Run::new(cfg.clone());
     out.rec(&run.header());
     let mut now: u64 = 5;
+    let mut prev_send: Option<u64> = None;      // when the previous request was sent
+    let mut prev_last_tx: u64 = 0;              // when it was last (re)transmitted
     let n = rng.range(20, 150);
     for _ in 0..n {
-        // idle gap before the request
-        now += match rng.below(12) {
-            0 => 600_000_000_000,
-            1 => 600_000_000_001,
-            2 => 599_999_999_999,
-            3 => 1_300_000_000_000,
-            _ => rng.range(1, 2_000_000_000),
+        // idle gap before the request. The estimator goes stale when MORE than 600 s have passed since the previous
+        // request was SENT: the boundary values are taken relative to that instant (exactly 600 s, one nanosecond either
+        // side, and a point inside the retransmission window of the previous request, i.e. before its last transmission
+        // + 600 s), besides long and ordinary gaps
+        let base = prev_send.unwrap_or(now);
+        let target = match rng.below(14) {
+            0 => base + 600_000_000_000,
+            1 => base + 600_000_000_001,
+            2 => base + 599_999_999_999,
+            3 => base + 600_000_000_001 + rng.below(prev_last_tx.saturating_sub(base).max(1)),
+            4 => base + 600_000_000_000 + prev_last_tx.saturating_sub(base),
+            5 => base + 600_000_000_001 + prev_last_tx.saturating_sub(base),
+            6 => now + 1_300_000_000_000,
+            _ => now + rng.range(1, 2_000_000_000),
         };
+        now = target.max(now + 1);
+        prev_send = Some(now);
+        prev_last_tx = now;
         run.apply(out, &Op::Send { now, method: 1, room: true, attrs: vec![] });
         let Some(&id) = run.outstanding.last() else { continue };
         // response delay: mostly well below the RTO, sometimes beyond the first retransmission
@@ -948,6 +960,7 @@ fn gen_rtt_history(rng: &mut Rng, out: &mut Out, stats: &mut HashMap<String, u64
             t = a.max(t);
             run.apply(out, &Op::Tmo { now: t });
             if !run.outstanding.contains(&id) { break }
+            prev_last_tx = t;
         }
         now = (now + delay).max(t + 1);
         if run.outstanding.contains(&id) {
